@@ -1945,6 +1945,8 @@ class PyCdlib:
         for sec in self.eltorito_boot_catalog.sections:
             for entry in sec.section_entries:
                 entries_to_assign.append(entry)
+        for entry in self.eltorito_boot_catalog.standalone_entries:
+            entries_to_assign.append(entry)
 
         for entry in entries_to_assign:
             entry_extent = entry.get_rba()
@@ -2274,6 +2276,8 @@ class PyCdlib:
             for sec in self.eltorito_boot_catalog.sections:
                 for entry in sec.section_entries:
                     self._check_for_eltorito_boot_info_table(entry.inode)
+            for entry in self.eltorito_boot_catalog.standalone_entries:
+                self._check_for_eltorito_boot_info_table(entry.inode)
 
         # The PVD is finished.  Now look to see if we need to parse the SVD.
         for svd in self.svds:
@@ -3551,6 +3555,8 @@ class PyCdlib:
             for sec in self.eltorito_boot_catalog.sections:
                 for entry in sec.section_entries:
                     eltorito_entries.add(id(entry.inode))
+            for entry in self.eltorito_boot_catalog.standalone_entries:
+                eltorito_entries.add(id(entry.inode))
 
             if id(ino) in eltorito_entries:
                 raise pycdlibexception.PyCdlibInvalidInput("Cannot remove a file that is referenced by El Torito; use 'rm_eltorito' to remove El Torito, or use 'rm_hard_link' to hide the entry")
@@ -5220,6 +5226,8 @@ class PyCdlib:
         for sec in self.eltorito_boot_catalog.sections:
             for entry in sec.section_entries:
                 entries_to_remove.append(entry)
+        for entry in self.eltorito_boot_catalog.standalone_entries:
+            entries_to_remove.append(entry)
 
         for entry in entries_to_remove:
             if entry.inode is not None:
